@@ -25,6 +25,9 @@ func genRacePlan(seed uint64, thorough bool) *Plan {
 		g.client = c
 		var items []Item
 		add := func(a ...string) { items = append(items, cmdItem(a...)) }
+		if c == 0 {
+			add("SET", "b0", "0123456789abcdef") // the value the bitmap commands work on
+		}
 		n := 3 + g.r.IntN(12)
 		for i := 0; i < n; i++ {
 			switch g.r.IntN(30) {
@@ -97,8 +100,29 @@ func genRacePlan(seed uint64, thorough bool) *Plan {
 				add(g.pick("PERSIST", "TTL", "EXPIRETIME", "TYPE", "TOUCH"), g.key())
 			case 18:
 				add("SET", g.key(), g.val(), "GET")
-			case 19:
-				add("SORT", "l0", "ALPHA")
+			case 19, 22, 23, 24:
+				// bitmap commands on the shared string: in-place writers against
+				// readers that scan the value
+				switch g.r.IntN(9) {
+				case 0:
+					add("SETRANGE", "b0", g.pick("0", "1", "3"), g.pick("x", "yz"))
+				case 1:
+					add("BITCOUNT", "b0")
+				case 2:
+					add("BITPOS", "b0", g.pick("0", "1"))
+				case 3:
+					add("GETBIT", "b0", g.pick("0", "7", "13"))
+				case 4:
+					add("SETBIT", "b0", g.pick("0", "7", "13"), g.pick("0", "1"))
+				case 5:
+					add("BITFIELD", "b0", "SET", "u8", "0", g.pick("65", "66"), "INCRBY", "u4", "8", "1")
+				case 6:
+					add("DUMP", "b0")
+				case 7:
+					add("BITOP", g.pick("AND", "OR", "XOR"), "b0", "b0", "k0")
+				default:
+					add("SORT", "l0", "ALPHA")
+				}
 			case 20:
 				add("SCAN", "0")
 			case 21:
